@@ -186,9 +186,12 @@ _unit = S.floats(0.0, 1.0)
 def mga_cases(draw, with_vcv=False):
     zone = draw(st.integers(46, 59))
     lat = draw(st.one_of(S.floats(-60.0, -5.0), S.floats(-60.0, -5.0), st.sampled_from([-60.0, -5.0, -23.6701, -37.8])))
-    sel = draw(st.integers(0, 3))
+    sel = draw(st.integers(0, 4))
     if sel == 0:      # near the zone boundary: 3 +- 0.6 deg from the central meridian
         dl = (3.0 + (draw(_unit) * 2 - 1) * 0.6) * (1 if draw(st.booleans()) else -1)
+    elif sel == 4:    # within centimetres .. tens of metres of the zone boundary, either side of it (the datum shift is ~1.8 m)
+        off = draw(S.log_uniform(1e-8, 3e-4)) * (1 if draw(st.booleans()) else -1)
+        dl = (3.0 + off) * (1 if draw(st.booleans()) else -1)
     else:
         dl = (draw(_unit) * 2 - 1) * 3.6
     cm = -177.0 + (zone - 1) * 6.0
